@@ -114,7 +114,11 @@ TrialOrder(kind, n, np) ==                 \* position -> index into make_design
   IF kind = 1 THEN [o \in 1..N |-> o]                                    \* as make_design
   ELSE IF kind = 2 THEN [o \in 1..N |-> N + 1 - o]                       \* reversed
   ELSE [o \in 1..N |-> ((o - 1) % np) * n + ((o - 1) \div np) + 1]        \* blocked by condition
-LabelOf(kind, c) == IF kind = 0 THEN c ELSE 2 * c + 3
+\* label kinds: 0: c (make_design's values); 1: integers with offset and gaps, 2c+3; 2: FRACTIONAL floats
+\* (c+1)/8 - carried as the numerator c+1, denominator LabelDen; 3: strings 'a','b',.. - carried as the
+\* code c+1.  All kinds are increasing in c, so the sorted-label order (indicator, calc_rdm) is the same.
+LabelOf(kind, c) == IF kind = 0 THEN c ELSE IF kind = 1 THEN 2 * c + 3 ELSE c + 1
+LabelDen(kind) == IF kind = 2 THEN 8 ELSE 1
 \* util.matrix.indicator: one column per distinct value, columns in sorted order
 Indicator(labels) == LET u == SortedSeq(ToSet(labels)) IN
   [o \in 1..Len(labels) |-> [j \in 1..Len(u) |-> IF labels[o] = u[j] THEN 1 ELSE 0]]
@@ -159,11 +163,11 @@ InitModels ==
        /\ h % KeepMod = 0
        /\ inp = Input(pts, off, PickFrom(NParts, h \div 7), PickFrom(NSims, h \div 23),
                       sig, IF (h \div 97) % 2 = 0 THEN "vector" ELSE "matrix", (h \div 11) % 2 = 1,
-                      1 + ((h \div 41) % 3), (h \div 5) % 2, FALSE, (h \div 3) % 2,
+                      1 + ((h \div 41) % 3), (h \div 5) % 4, FALSE, (h \div 3) % 2,
                       roots[((h \div 13) % Len(roots)) + 1])
 InitProtocol ==
   \E pts \in Catalogue : \E off \in ChanOffsets : \E np \in NParts : \E ns \in NSims : \E sig \in Signals :
-  \E dm \in {"vector", "matrix"} : \E same \in BOOLEAN : \E ord \in 1..3 : \E lab \in 0..1 : \E covsig \in BOOLEAN :
+  \E dm \in {"vector", "matrix"} : \E same \in BOOLEAN : \E ord \in 1..3 : \E lab \in 0..3 : \E covsig \in BOOLEAN :
     LET h == HashSeq(FlattenSeq(pts) \o <<off + 1, np, ns, sig[1], ord, lab, Salt>>, 7)
         roots == SetToSeq(NoiseRoots) IN
     /\ Len(pts) \in NConds
@@ -171,7 +175,10 @@ InitProtocol ==
     /\ off <= Len(pts)
     /\ HashSeq(<<h, IF dm = "vector" THEN 0 ELSE 1, IF same THEN 1 ELSE 0, IF covsig THEN 1 ELSE 0>>, 3) % KeepMod = 0
     /\ inp = Input(pts, off, np, ns, sig, dm, same, ord, lab, covsig, h % 2, roots[((h \div 13) % Len(roots)) + 1])
-Init == /\ IF Mode = "models" THEN InitModels ELSE InitProtocol
+\* Mode "design": make_design alone, for every n_cond in NConds x n_part in NParts (large n: the closed
+\* form must hold for every size, e.g. n_cond = 49, 98, 103 where a float formula for the partition drifts)
+InitDesign == \E n \in NConds : \E np \in NParts : inp = [n |-> n, nPart |-> np]
+Init == /\ IF Mode = "models" THEN InitModels ELSE IF Mode = "design" THEN InitDesign ELSE InitProtocol
         /\ stage = "input" /\ des = <<>> /\ res = <<>>
         /\ prot = [nd |-> 0, log |-> <<>>, sigOf |-> <<>>, noiseOf |-> <<>>, pre |-> 0]
 
@@ -217,7 +224,11 @@ Measure == /\ stage = "drawn" /\ Len(prot.sigOf) = inp.nSim
                               ELSE <<>>]
            /\ stage' = "done"
            /\ UNCHANGED <<inp, des, prot>>
-Next == Design \/ PreSignal \/ OneSim \/ Measure
+DesignOnly == /\ stage = "input" /\ Mode = "design"
+              /\ des' = MakeDesign(inp.n, inp.nPart)
+              /\ stage' = "design-done"
+              /\ UNCHANGED <<inp, prot, res>>
+Next == IF Mode = "design" THEN DesignOnly ELSE (Design \/ PreSignal \/ OneSim \/ Measure)
 Done == stage = "done"
 
 (* ------------------------------ properties ----------------------------- *)
@@ -228,6 +239,14 @@ DesignOk == stage = "designed" =>
         Cardinality({o \in 1..NObs : des.labels[o] = LabelOf(inp.lab, c) /\ des.parts[o] = p}) = 1
    /\ \A o \in 1..NObs : SumSeq(des.Z[o]) = 1                        \* indicator rows
    /\ Len(des.Z[1]) = inp.n
+\* o |-> cond[o] + n * part[o] is a bijection onto 0..N-1  <=>  every (condition, partition) pair exactly once
+DesignSweepOk == stage = "design-done" =>
+   LET N == inp.n * inp.nPart IN
+   /\ Len(des.cond) = N /\ Len(des.part) = N
+   /\ \A o \in 1..N : des.cond[o] \in 0..inp.n-1 /\ des.part[o] \in 0..inp.nPart-1
+   /\ Cardinality({des.cond[o] + inp.n * des.part[o] : o \in 1..N}) = N
+EmitDesign == stage = "design-done" =>
+   PrintT(ToJson([kind |-> "design", n |-> inp.n, nPart |-> inp.nPart, cond |-> des.cond, part |-> des.part]))
 GramOk == Done => DoubleCentring(inp.pts)
 SignalOk == (Done /\ inp.P >= inp.n) => \A r \in 0..1 : SignalIsExact(inp.pts, ExactSignal(inp.pts, inp.P, r))
 Contract ==          \* clause a: Rdm(MakeDataset(model, exact signal, zero noise)) = signal * ModelRdm
@@ -252,7 +271,8 @@ NoiseRelation == Done => \A o \in {1, NObs} : \A c \in {1, inp.P} :
 
 Emit == Done => PrintT(ToJson(
    [n |-> inp.n, pts |-> inp.pts, P |-> inp.P, nPart |-> inp.nPart, nSim |-> inp.nSim, sig |-> inp.sig,
-    design |-> inp.design, same |-> inp.same, order |-> inp.order, lab |-> inp.lab, covsig |-> inp.covsig,
+    design |-> inp.design, same |-> inp.same, order |-> inp.order, lab |-> inp.lab, labden |-> LabelDen(inp.lab),
+    covsig |-> inp.covsig,
     ncov |-> inp.ncov, root |-> inp.root, demanded |-> Demanded,
     cond |-> des.cond, part |-> des.part, labels |-> des.labels, Z |-> des.Z,
     draws |-> prot.log, sigOf |-> prot.sigOf, model |-> res.model, cls |-> res.cls,
